@@ -42,6 +42,7 @@ func c10Values() []interface{} {
 		bson.A{D(E("b", int32(1)))}, bson.A{D(E("b", int32(1))), D(E("b", int32(2)))}, bson.A{D(E("b", bson.A{int32(1), int32(2)}))},
 		bson.A{D(E("c", int32(1)))}, bson.A{D(E("b", int32(1))), D(E("c", int32(2)))}, bson.A{D(E("b", int32(2))), int32(1)},
 		bson.A{bson.A{int32(1)}}, bson.A{bson.A{int32(1), int32(2)}, bson.A{int32(3)}},
+		D(E("b", bson.A{})), bson.A{D(E("b", bson.A{}))}, bson.A{D(E("b", nil))}, bson.A{int32(0), int32(10)},
 	}
 }
 
@@ -121,6 +122,17 @@ func c10Leaves() []c10Leaf {
 			for _, o := range []interface{}{int32(1), int32(3), bson.A{int32(1)}, bson.A{int32(0), int32(2)}, primitive.Binary{Data: []byte{4}}, int64(6)} {
 				add(p, op, o)
 			}
+		}
+		// several operators in one condition document (implicit and), plain and under $not
+		multi := []bson.D{
+			D(E("$gt", int32(1)), E("$lt", int32(5))), D(E("$gte", int32(1)), E("$lte", 1.5)), D(E("$gt", int32(1)), E("$ne", int32(2))),
+			D(E("$exists", true), E("$type", "number")), D(E("$in", bson.A{int32(1), int32(2)}), E("$nin", bson.A{int32(2)})),
+			D(E("$lt", int32(2)), E("$gt", int32(5))), D(E("$ne", int32(1)), E("$exists", true)), D(E("$size", int32(2)), E("$all", bson.A{int32(1)})),
+			D(E("$gte", "a"), E("$lt", "b")), D(E("$mod", bson.A{int32(2), int32(0)}), E("$gt", int32(1)), E("$lt", int32(7))),
+		}
+		for _, m := range multi {
+			out = append(out, c10Leaf{path: p, op: "$multi", operand: m, filter: D(E(p, m))})
+			out = append(out, c10Leaf{path: p, op: "$multi", operand: m, not: true, filter: D(E(p, D(E("$not", m))))})
 		}
 	}
 	return out
@@ -275,6 +287,16 @@ func init() {
 						}
 					}
 					law("in", di, l, l, row[li], any)
+				case "$multi":
+					all := true
+					for _, e := range l.operand.(bson.D) {
+						g, err := match(docs[di], bson.D{{Key: l.path, Value: bson.D{e}}})
+						atomic.AddInt64(&evals, 1)
+						if err != nil || !g {
+							all = false
+						}
+					}
+					law("multi-operator-and", di, l, l, row[li], all)
 				case "$exists":
 					_, it, _ := find(l.path, "$exists", true, false)
 					tr := false
